@@ -70,6 +70,7 @@ def generate(seed, tier):
     data = SC.gen_data_spec(rw, N, channels)
     backend = W.backend_of({"world": world})
     cfg = SC.gen_config(rw, N, backends=(backend,), allow_custom=True)
+    cfg["layout"] = rw.choice(SC.LAYOUTS)      # how a two-channel record is handed over (2xN, its transposed view, a list of rows)
     if sim:
         if cfg.get("force_target_nf"):
             cfg["force_target_nf"] = False
